@@ -9,7 +9,7 @@
 From Coq Require Import ZArith QArith List Bool Permutation.
 Import ListNotations.
 From TK Require Import Validate_Model Validate_Spec Validate_Proof Validate_Proof_Steps
-  Validate_Proof_Main Validate_Proof_Gen Validate_Proof_Order Validate_Proof_Bodies Validate_Float Validate.
+  Validate_Proof_Main Validate_Proof_Gen Validate_Proof_Order Validate_Proof_Bodies Validate_Float Validate_Float_Points Validate.
 
 (* ---- predicate objects of predicates.hpp, over all of Q *)
 Theorem in_range_semantics : forall n ty l u x,
@@ -351,6 +351,60 @@ Print Assumptions landmark_count_binary64.
 
 Example landmark_count_nonvacuous : (0 <= 10 <= 256)%Z /\ (0 <= 19 <= 256)%Z.
 Proof. repeat split; discriminate. Qed.
+
+(* ---- wave 3: the two computed bounds on the doubles that decide them.  f = the bound as the C++ computes it
+        (fbound: Coq primitive floats), next_down f, next_up f.  For every N up to 65536: the exact bound of the model
+        lies strictly between next_down f and next_up f, and the binary64 check classifies (next_down f, f, next_up f) as
+        the exact check classifies (next_down f, exact bound, next_up f).  The expressions swept are the bounds of the
+        documented cells (computed_bound_cells).  checks/c14.py prints float_table on every run and generates, for every
+        N of the tier, the requests at the three points with these verdicts as the expected outcome. *)
+Theorem computed_bound_cells :
+  c_pred cell_landmark_ratio = in_closed_range ratio_bound (BReal 1) /\
+  c_pred cell_perplexity = in_closed_range (BReal 0) perp_bound.
+Proof. split; reflexivity. Qed.
+Print Assumptions computed_bound_cells.
+
+Theorem computed_bound_points_binary64 : forall n, (1 <= n <= 65536)%Z ->
+  neighbours_ok ratio_bound n = true /\ neighbours_ok perp_bound n = true /\
+  ratio_class_ok n = true /\ perp_class_ok n = true.
+Proof. exact points_ok_65536. Qed.
+Print Assumptions computed_bound_points_binary64.
+
+Example computed_bound_points_nonvacuous : (1 <= 47 <= 65536)%Z.
+Proof. split; discriminate. Qed.
+
+(* the verdicts themselves: one ulp below 3.0/N rejected, 3.0/N and one ulp above accepted; one ulp below (N-1)/3.0 and
+   (N-1)/3.0 accepted, one ulp above rejected *)
+Theorem computed_bound_verdicts_binary64 : forall n, (4 <= n <= 65536)%Z ->
+  ratio_verdicts n = (false, true, true) /\ perp_verdicts n = (true, true, false).
+Proof. exact verdicts_65536. Qed.
+Print Assumptions computed_bound_verdicts_binary64.
+
+Example computed_bound_verdicts_nonvacuous : (4 <= 13 <= 65536)%Z.
+Proof. split; discriminate. Qed.
+
+(* regression (seeded change C14_3): checking the derived landmark count static_cast<IndexType>(N * ratio) in [3, N]
+   instead of ratio >= 3.0/N is a different check: complete lists of the N <= 300 where it rejects the valid bound and
+   where it accepts the invalid double just below the bound *)
+Theorem count_formulation_rejects_valid_bound_refuted :
+  filter count_rejects_the_bound (zrange 3 298) = [47; 94; 147; 173; 188; 294]%Z.
+Proof. exact count_formulation_rejects_valid_bound. Qed.
+Print Assumptions count_formulation_rejects_valid_bound_refuted.
+
+Theorem count_formulation_accepts_invalid_ratio_refuted :
+  filter count_accepts_below_the_bound (zrange 3 298) =
+  [13; 26; 52; 59; 104; 109; 111; 118; 195; 205; 208; 217; 218; 222; 225; 231; 236]%Z.
+Proof. exact count_formulation_accepts_invalid_ratio. Qed.
+Print Assumptions count_formulation_accepts_invalid_ratio_refuted.
+
+(* the shipped check accepts 3.0/N; the number of landmarks then selected is 2 or 3 (2 for N = 47, 94, ...) *)
+Theorem landmark_count_at_bound_binary64 : forall n, (3 <= n <= 65536)%Z ->
+  count_of n (fbound ratio_bound n) = 2%Z \/ count_of n (fbound ratio_bound n) = 3%Z.
+Proof. exact count_at_bound_65536. Qed.
+Print Assumptions landmark_count_at_bound_binary64.
+
+Example landmark_count_at_bound_nonvacuous : (3 <= 47 <= 65536)%Z /\ count_of 47 (fbound ratio_bound 47) = 2%Z.
+Proof. split; [split; discriminate | vm_compute; reflexivity]. Qed.
 
 (* ---- regression: the stage order of the tree before repair F27 (no checkTypes) *)
 Theorem old_code_documented_when_well_typed : forall r, well_typed r ->
